@@ -85,6 +85,58 @@ def feed_and_receive(frames, ids, msgs, reads):
             "failed": bool(state["failed"]), "err": state["err"] or ""}
 
 
+def listen_and_respond(cmds, ids, frames, reads, pause):
+    """The same fragmentation fed to a real NetworkClient in its server role (its own listener loop around stream_recv_msg, the
+    command evaluated on a second loop by a real interpreter, the response written back), with a PAUSE of virtual time after every
+    read: what comes back are the response frames, in order, under the ids of the requests."""
+    import pickle
+    from vloop import VLoop
+    from ipcdriver import FakeWriter
+    import klongpy.sys_fn_ipc as ipc
+    from klongpy import KlongInterpreter
+    io, kl = VLoop(), VLoop()
+    reader = asyncio.StreamReader(loop=io)
+    writer = FakeWriter()
+    prov = ipc.ReaderWriterConnectionProvider(reader, writer, "peer", 1)
+    nc = ipc.NetworkClient.create_from_conn_provider(io, kl, KlongInterpreter(), prov)
+    stream = b"".join(frames)
+    task = io.create_task(nc.run_server())
+
+    def settle():
+        for _ in range(8):
+            io.run_ready()
+            kl.run_ready()
+    settle()
+    pos = 0
+    for n in reads:
+        if n == 0:
+            reader.feed_eof()
+        else:
+            reader.feed_data(stream[pos:pos + n])
+            pos += n
+        settle()
+        if pause:
+            io.advance(pause)
+            io.step()
+            settle()
+    delivered = []
+    for raw, body in writer.frames:
+        mid = uuid.UUID(bytes=raw)
+        k = ids.index(mid) + 1 if mid in ids else 0
+        try:
+            val = pickle.loads(body)
+        except Exception:   # noqa
+            val = None
+        delivered.append({"k": k, "id": k > 0, "body": bool(k > 0 and repr_msg(val) == repr_msg(cmds[k - 1][1]))})
+    failed = task.done()
+    if not task.done():
+        task.cancel()
+        settle()
+    io.close()
+    kl.close()
+    return {"lens": [len(f) - 20 for f in frames], "reads": list(reads), "delivered": delivered, "failed": bool(failed), "err": ""}
+
+
 def repr_msg(m):
     import numpy as np
     if isinstance(m, np.ndarray):
@@ -140,6 +192,28 @@ def run_wire(ev, vd, d, thorough):
                 t["tid"] = len(traces)
                 traces.append(t)
                 meta[t["tid"]] = (msgs, p)
+    # the same judgement for the LISTENER of a real NetworkClient (server role): commands in, responses out, a pause of virtual time
+    # after every read (a receive that gives up after a while must not lose the bytes it has already taken)
+    import random
+    cmds = [("k::5", 5), ("k*2", 10)]
+    ids, frames = real_frames([c for c, _ in cmds])
+    lens = [len(f) - 20 for f in frames]
+    eofs, total = eof_classes(lens)
+    mod, cfg = write_wire_mc(d, lens, 3, eofs, True, "MCWireL", None)
+    rl = run_tlc(mod, cfg, workers=1, timeout=3000)
+    ev.add_tlc(f"Wire.tla command frames {lens}: every cut into <= 3 reads x end of stream at {len(eofs)} boundary offsets (behaviours for the listener route)", rl)
+    behs = [p for p in rl.prints if isinstance(p, dict) and "reads" in p]
+    few = [p for p in behs if len(p["reads"]) <= 2]
+    rest = [p for p in behs if len(p["reads"]) > 2]
+    random.Random(7).shuffle(rest)
+    n_listener = 0
+    for p in few + rest[:(1200 if not thorough else 12000)]:
+        t = listen_and_respond(cmds, ids, frames, p["reads"], 2.5)
+        t["tid"] = len(traces)
+        traces.append(t)
+        meta[t["tid"]] = ([c for c, _ in cmds] + ["(through the listener of a NetworkClient, 2.5 s pause after every read)"], p)
+        n_listener += 1
+    ev.cov["fragmentations_through_the_listener_with_pauses"] = n_listener
     tf = os.path.join(d, "wire.json")
     with open(tf, "w") as f:
         json.dump(traces, f)
